@@ -1,9 +1,11 @@
 #!/bin/sh
-# builds the framework against /repo's current working tree (offline)
+# builds the framework (from the directory this script lives in) against /repo's current working tree (offline)
 export GOFLAGS=-mod=mod GOPROXY=off GOSUMDB=off GOTOOLCHAIN=local
 set -e
-cd /verif
+H=$(cd "$(dirname "$0")" && pwd)
+export VERIF_HOME=$H
+cd $H
 mkdir -p bin .build
 go build -o bin/vinstr ./cmd/vinstr
 bin/vinstr
-go build -tags verif -overlay /verif/.build/overlay.json -o bin/vcheck ./cmd/vcheck
+go build -tags verif -overlay $H/.build/overlay.json -o bin/vcheck ./cmd/vcheck
